@@ -39,25 +39,28 @@ def generate(res, work, name, tier):
     module, cfg, sim, depth = UNIVERSES[name]
     if sim:
         sim = sim % (20000 if tier == "thorough" else 2000)
+    raw = os.path.join(work, "gen_%s.out" % name)
     r = tlc(module, cfg, os.path.join(work, "gen_" + name), workers=(1 if sim else 8), timeout=2400, simulate=sim, depth=depth,
-            seed_=seed() if sim else None, heap="12g")
-    vals = prints(r["out"], "VEC")
-    if not vals:
-        raise ToolError("generator %s produced nothing:\n%s" % (cfg, r["out"][-2000:]))
+            seed_=seed() if sim else None, heap="12g", out_file=raw)
     if not sim:
         res.add_tlc("gen:" + cfg, r)
+    import hashlib
     seen = set()
     path = os.path.join(work, "vec_%s.ndjson" % name)
     n = 0
     with open(path, "w") as f:
-        for v in vals:
+        for v in prints_file(raw, "VEC"):        # streamed: a simulated universe prints hundreds of thousands of lines
             s = json.dumps(v["doc"], separators=(",", ":"), sort_keys=True)
-            if s in seen:
+            h = hashlib.sha1(s.encode()).digest()
+            if h in seen:
                 continue
-            seen.add(s)
+            seen.add(h)
             v["id"] = "%s:%d" % (name, n)
             n += 1
             f.write(json.dumps(v, separators=(",", ":")) + "\n")
+    os.remove(raw)
+    if n == 0:
+        raise ToolError("generator %s produced nothing:\n%s" % (cfg, r["out"][-2000:]))
     return path, n
 
 
